@@ -358,18 +358,28 @@ Proof.
   destruct Hl as [sec unk sc x y Hs| |]; try reflexivity. simpl. eapply sc_lo_type, Hs.
 Qed.
 
+(* the silent rejection of an unknown of schema `false` reads the unknown flag and the merged schema only *)
+Lemma silent_never_lo c1 c2 : lo_c c1 c2 -> silent_never c1 = silent_never c2.
+Proof.
+  intros H. pose proof (top_sch_lo _ _ H) as ET. destruct H as [|l1 l2 c1 c2 Hl Hc]; [reflexivity|].
+  unfold silent_never. now rewrite ET, (lo_l_unk _ _ Hl).
+Qed.
+
 Theorem validate_lo a c1 c2 : lo_c c1 c2 -> validate a c1 = validate a c2.
 Proof.
   intros H. pose proof (top_sch_lo _ _ H) as ET. pose proof (top_is_string_lo _ _ H) as ES.
-  pose proof (keys_lo _ _ H) as EK.
+  pose proof (keys_lo _ _ H) as EK. pose proof (silent_never_lo _ _ H) as EN.
   destruct a as [| |[|props required closed]]; cbn [validate].
-  - now rewrite ES.
+  - now rewrite ES, EN.
   - destruct H as [|l1 l2 c1 c2 Hl Hc]; [reflexivity|].
     rewrite ET, (lo_l_unk _ _ Hl). destruct (l_unk l2); [reflexivity|].
     destruct Hl as [sec unk sc x y Hs|sec unk sc e1 e2 He|sec unk sc p1 p2 Hp]; try reflexivity.
     assert (HF : Forall2 lo_c (filter (fun e => negb (top_is_string e)) e1) (filter (fun e => negb (top_is_string e)) e2)).
     { eapply filter_rel; [|exact He]. intros x y Hxy. now rewrite (top_is_string_lo _ _ Hxy). }
-    rewrite (Forall2_length _ _ _ HF). now destruct HF.
+    assert (HG : Forall2 lo_c (filter (fun e => negb (silent_never e)) (filter (fun e => negb (top_is_string e)) e1))
+                             (filter (fun e => negb (silent_never e)) (filter (fun e => negb (top_is_string e)) e2))).
+    { eapply filter_rel; [|exact HF]. intros x y Hxy. now rewrite (silent_never_lo _ _ Hxy). }
+    rewrite (Forall2_length _ _ _ HG). now destruct HF.
   - reflexivity.
   - assert (HB : forall p : string * string,
                (let pc := property (fst p) c1 in
@@ -384,8 +394,15 @@ Proof.
     rewrite ET, (lo_l_unk _ _ Hl). destruct (l_unk l2); [reflexivity|].
     destruct Hl as [sec unk sc x y Hs|sec unk sc e1 e2 He|sec unk sc p1 p2 Hp]; try reflexivity.
     rewrite EK, EU.
-    match goal with |- context [filter ?p1 props] =>
-      match goal with |- _ = (Nat.eqb (_ + _ + length (filter ?p2 props)) 0, _) =>
-        replace (filter p1 props) with (filter p2 props) end end; [reflexivity|].
-    apply filter_ext_in'. intros p _. cbv beta. f_equal. f_equal. symmetry. apply HB.
+    assert (HS : forall p : string * string,
+               silent_never (property (fst p) (LObj sec unk sc p1 :: c1)) = silent_never (property (fst p) (LObj sec unk sc p2 :: c2))).
+    { intros p. apply silent_never_lo, property_lo. constructor; [now constructor|exact Hc]. }
+    match goal with |- (Nat.eqb (_ + _ + length (filter ?P1 props)) 0, _) = (Nat.eqb (_ + _ + length (filter ?P2 props)) 0, _) =>
+      assert (EP : filter P1 props = filter P2 props)
+        by (apply filter_ext_in'; intros p _; cbv beta; f_equal; f_equal; apply HB) end.
+    rewrite EP.
+    match goal with |- (_, if _ then _ else N.of_nat (_ + length (filter ?Q1 ?l))) = (_, if _ then _ else N.of_nat (_ + length (filter ?Q2 _))) =>
+      assert (EQ : filter Q1 l = filter Q2 l)
+        by (apply filter_ext_in'; intros p _; cbv beta; f_equal; apply HS) end.
+    rewrite EQ. reflexivity.
 Qed.
